@@ -150,6 +150,47 @@ void sem_deadlock_handler() {
     pbt::finish_case_early();
 }
 
+//! when exploring exhaustively the scenario must be deadlock-free in every schedule
+void sem_explore_deadlock() { pbt::fatal("C11/stranded-waiter", "threads at rest in a template that is satisfiable in every schedule:" + vsched::S().describe()); }
+
+//! run one semaphore scenario; the caller has started the scheduler run
+void sem_execute(size_t initial, const std::vector<std::vector<Op>>& scripts, const std::vector<int>& main_script, bool exploring) {
+    const int nthreads = (int)scripts.size();
+    sem = SemState();
+    tlx::Semaphore s(initial);
+    g_sem = &s;
+    sem.model = sem.initial = initial;
+    sem.pend.assign((size_t)nthreads + 1, Pending());
+    vsched::S().unlock_hook = sem_unlock_hook;
+    if (exploring) vsched::S().deadlock_handler = sem_explore_deadlock;
+    else vsched::S().deadlock_handler = sem_deadlock_handler;
+    {
+        std::vector<Thread> th((size_t)nthreads);
+        for (int t = 0; t < nthreads; ++t)
+            th[(size_t)t] = Thread([&, t]() {
+                for (const Op& op : scripts[(size_t)t]) run_op(s, t + 1, op);
+            });
+        // main script: -1 = one signal() (single-token signals are where a wrong wake-up policy hurts),
+        // k >= 0 = join thread k now (a phase boundary: that thread must be able to finish with the tokens so far)
+        for (int a : main_script) {
+            if (a < 0) run_op(s, 0, Op{SIGNAL1, 1, 0});
+            else if (th[(size_t)a].joinable()) {
+                vsched::note("join");
+                th[(size_t)a].join();
+                vsched::note("");
+            }
+        }
+        vsched::note("join");
+        for (auto& t : th)
+            if (t.joinable()) t.join();
+        vsched::note("");
+    }
+    size_t val = s.value();
+    SCHED_CHECK(val == sem.model && val == sem.initial + sem.signalled - sem.acquired, "C11/value-mismatch",
+                "final value()=" << val << " but initial+signalled-acquired=" << sem.initial + sem.signalled - sem.acquired);
+    g_sem = nullptr;
+}
+
 } // namespace
 
 PBT_PROPERTY(semaphore) {
@@ -193,32 +234,12 @@ PBT_PROPERTY(semaphore) {
     vsched::Options opt;
     opt.spurious_wakeups = spurious;
     vsched::Run run(src, opt);
-    tlx::Semaphore s(initial);
-    g_sem = &s;
-    sem.model = sem.initial = initial;
-    sem.pend.assign((size_t)nthreads + 1, Pending());
-    vsched::S().unlock_hook = sem_unlock_hook;
-    vsched::S().deadlock_handler = sem_deadlock_handler;
-    {
-        std::vector<Thread> th((size_t)nthreads);
-        for (int t = 0; t < nthreads; ++t)
-            th[(size_t)t] = Thread([&, t]() {
-                for (const Op& op : scripts[(size_t)t]) run_op(s, t + 1, op);
-            });
-        // top-up signals one by one (single-token signals are where a wrong wake-up policy hurts)
-        for (size_t i = 0; i < topup; ++i) run_op(s, 0, Op{SIGNAL1, 1, 0});
-        vsched::note("join");
-        for (auto& t : th) t.join();
-        vsched::note("");
-    }
-    size_t val = s.value();
-    SCHED_CHECK(val == sem.model && val == sem.initial + sem.signalled - sem.acquired, "C11/value-mismatch",
-                "final value()=" << val << " but initial+signalled-acquired=" << sem.initial + sem.signalled - sem.acquired);
+    sem_execute(initial, scripts, std::vector<int>(topup, -1), /*exploring=*/false);
     if (sem.saw_two_blocked_different) {
         pbt::nontrivial();
         pbt::label("two_waiters_different_requests");
     }
-    PBT_LOG("final value=" << val << " steps=" << vsched::S().steps << " preemptions=" << vsched::S().preemptions << "\n");
+    PBT_LOG("steps=" << vsched::S().steps << " preemptions=" << vsched::S().preemptions << "\n");
 }
 
 // ------------------------------------------------------------------ barriers
@@ -234,14 +255,7 @@ struct BarState {
 } bar;
 
 template <class Barrier>
-void barrier_scenario(pbt::Source& src, const char* kind) {
-    int n = (int)src.range(1, 4);
-    int G = (int)src.range(1, 5);
-    bool use_yield = src.boolean();
-    bool with_action = !src.chance(40);
-    int extra = (int)src.range(0, 1);
-    bool spurious = src.chance(48);
-    if (spurious) pbt::label("spurious_wakeups");
+void barrier_execute(int n, int G, bool use_yield, bool with_action, int extra) {
     bar = BarState();
     bar.n = n;
     bar.G = G;
@@ -250,12 +264,6 @@ void barrier_scenario(pbt::Source& src, const char* kind) {
     bar.leaves.assign((size_t)G, 0);
     bar.gen_of.assign((size_t)n, 0);
     bar.inside.assign((size_t)n, 0);
-    PBT_LOG(kind << " n=" << n << " generations=" << G << " wait_yield=" << use_yield << " action=" << with_action << "\n");
-    pbt::label(use_yield ? "wait_yield" : "wait");
-
-    vsched::Options opt;
-    opt.spurious_wakeups = spurious;
-    vsched::Run run(src, opt);
     Barrier b((size_t)n);
     vsched::Atomic<int> dummy(0);
     auto body = [&](int me) {
@@ -307,6 +315,23 @@ void barrier_scenario(pbt::Source& src, const char* kind) {
         SCHED_CHECK(bar.leaves[(size_t)g] == n, "C11/barrier-lost-thread", "generation " << g << ": " << bar.leaves[(size_t)g] << " of " << n << " left");
         if (with_action) SCHED_CHECK(bar.actions[(size_t)g] == 1, "C11/barrier-action-count", "generation " << g << ": action ran " << bar.actions[(size_t)g] << " times");
     }
+}
+
+template <class Barrier>
+void barrier_scenario(pbt::Source& src, const char* kind) {
+    int n = (int)src.range(1, 4);
+    int G = (int)src.range(1, 5);
+    bool use_yield = src.boolean();
+    bool with_action = !src.chance(40);
+    int extra = (int)src.range(0, 1);
+    bool spurious = src.chance(48);
+    if (spurious) pbt::label("spurious_wakeups");
+    PBT_LOG(kind << " n=" << n << " generations=" << G << " wait_yield=" << use_yield << " action=" << with_action << "\n");
+    pbt::label(use_yield ? "wait_yield" : "wait");
+    vsched::Options opt;
+    opt.spurious_wakeups = spurious;
+    vsched::Run run(src, opt);
+    barrier_execute<Barrier>(n, G, use_yield, with_action, extra);
     if (n >= 2 && G >= 2 && bar.overlap) {
         pbt::nontrivial();
         pbt::label("next_generation_entered_before_all_left");
@@ -318,3 +343,76 @@ void barrier_scenario(pbt::Source& src, const char* kind) {
 
 PBT_PROPERTY(barrier_mutex) { barrier_scenario<tlx::ThreadBarrierMutex>(src, "ThreadBarrierMutex"); }
 PBT_PROPERTY(barrier_spin) { barrier_scenario<tlx::ThreadBarrierSpin>(src, "ThreadBarrierSpin"); }
+
+// ---------------------------------------------------------------------------------------------
+// Bounded-exhaustive exploration (thorough tier): every schedule with at most `bound` preemptions
+// of small fixed templates. Semaphore templates are satisfiable in every schedule, so any rest
+// state with a blocked thread is a violation.
+#include "../engine/sched/explore.hpp"
+
+namespace {
+struct SemTemplate {
+    const char* name;
+    unsigned bound;
+    size_t initial;
+    std::vector<int> main_script; // -1 = signal(), k = join thread k
+    std::vector<std::vector<Op>> scripts;
+};
+const std::vector<SemTemplate>& sem_templates() {
+    static const std::vector<SemTemplate> T = {
+        {"wait(2) | wait(1) | main: signal(); join T2; 2 x signal()", 3, 0, {-1, 1, -1, -1}, {{{WAIT, 2, 0}}, {{WAIT, 1, 0}}}},
+        {"wait(1,slack 1) | wait(1) | main: signal(); join T2; 2 x signal()", 3, 0, {-1, 1, -1, -1}, {{{WAIT, 1, 1}}, {{WAIT, 1, 0}}}},
+        {"wait(1);signal() | wait(1);signal() | main: signal()", 3, 0, {-1}, {{{WAIT, 1, 0}, {SIGNAL1, 1, 0}}, {{WAIT, 1, 0}, {SIGNAL1, 1, 0}}}},
+        {"wait(3) | signal(2) | main: 2 x signal()", 3, 0, {-1, -1}, {{{WAIT, 3, 0}}, {{SIGNALN, 2, 0}}}},
+        {"wait(2) | wait(1) | wait(1) | main: 4 x signal()", 2, 0, {-1, -1, -1, -1}, {{{WAIT, 2, 0}}, {{WAIT, 1, 0}}, {{WAIT, 1, 0}}}},
+        {"try_acquire(1) | wait(1) | main: 2 x signal() (initial 1)", 3, 1, {-1, -1}, {{{TRY, 1, 0}}, {{WAIT, 1, 0}}}},
+        {"wait(3) | wait(1) | signal(2) | main: join T2; 2 x signal()", 3, 0, {1, -1, -1}, {{{WAIT, 3, 0}}, {{WAIT, 1, 0}}, {{SIGNALN, 2, 0}}}},
+    };
+    return T;
+}
+struct BarTemplate {
+    const char* name;
+    unsigned bound;
+    bool spin, yield;
+    int n, G;
+};
+const BarTemplate BAR_TEMPLATES[] = {
+    {"mutex barrier n=2 G=2", 3, false, false, 2, 2}, {"mutex barrier n=3 G=2", 2, false, false, 3, 2},
+    {"spin barrier wait n=2 G=2", 3, true, false, 2, 2}, {"spin barrier wait_yield n=2 G=3", 3, true, true, 2, 3},
+    {"spin barrier wait n=3 G=2", 2, true, false, 3, 2}, {"mutex barrier n=2 G=3", 3, false, false, 2, 3},
+};
+const size_t N_BAR = sizeof(BAR_TEMPLATES) / sizeof(BAR_TEMPLATES[0]);
+} // namespace
+
+PBT_PROPERTY(sync_exhaustive) {
+    uint64_t idx = src.bits(8), total = src.bits(8);
+    const size_t NS = sem_templates().size(), NT = NS + N_BAR;
+    if (total == 0) total = NT, idx = 0;
+    uint8_t none = 0;
+    bool was_verbose = pbt::ctx().verbose;
+    for (uint64_t t = idx; t < NT; t += total) {
+        unsigned bound = t < NS ? sem_templates()[t].bound : BAR_TEMPLATES[t - NS].bound;
+        const char* name = t < NS ? sem_templates()[t].name : BAR_TEMPLATES[t - NS].name;
+        vsched::Explorer ex(bound, 30000000);
+        pbt::ctx().verbose = false;
+        uint64_t n = ex.explore([&](vsched::Explorer& e) {
+            pbt::Source dummy(&none, 0);
+            vsched::Run run(dummy);
+            e.install();
+            if (t < NS) {
+                const SemTemplate& T = sem_templates()[t];
+                sem_execute(T.initial, T.scripts, T.main_script, /*exploring=*/true);
+            } else {
+                const BarTemplate& B = BAR_TEMPLATES[t - NS];
+                if (B.spin) barrier_execute<tlx::ThreadBarrierSpin>(B.n, B.G, B.yield, true, 0);
+                else barrier_execute<tlx::ThreadBarrierMutex>(B.n, B.G, B.yield, true, 0);
+            }
+        });
+        pbt::ctx().verbose = was_verbose;
+        pbt::count(n);
+        PBT_LOG("template " << t << " (" << name << "): " << n << " schedules with <= " << bound << " preemptions, complete=" << ex.complete << "\n");
+        if (!ex.complete) pbt::inconclusive();
+    }
+    pbt::label("template");
+    pbt::nontrivial();
+}
